@@ -89,6 +89,11 @@ def _chunk(args):
       continue
     mjd = mujoco.MjData(mjm)
     d = mjw.make_data(mjm, nworld=nworld)
+    if nworld > 1 and int(mjm.opt.cone) == int(mujoco.mjtCone.mjCONE_ELLIPTIC):
+      # per-world impedance ratio: the friction cone of the forces must hold in every world whatever its regularisation
+      import warp as wp
+
+      m.opt.impratio_invsqrt = wp.array(np.array([1.0 / np.sqrt(1.0 + 4.5 * (w % 3)) for w in range(nworld)], dtype=np.float32), dtype=float)
     st = family.make_state(rec, mjm, seed, vscale=0.5)
     if rec["c"].get("catalogue"):
       st["qvel"] = family.rng_for(rec["c"], seed, "v").uniform(-1, 1, size=mjm.nv)
